@@ -4,6 +4,19 @@ import json, os
 PROPS = [json.loads(l)['id'] for l in open('/verif/properties.jsonl')]
 
 CLAIMED = {
+ 'C04': dict(
+   category='proof',
+   text=('PARTIAL proof + validated premises. Proved in Coq for every symmetry descriptor, all integer charges and all four (nU, sU) branches: the charge assigned '
+         'to the new connecting leg makes every block of U, S, V (Q, R) obey the selection rule of its tensor with the promised signatures (sU on U, -sU on V, '
+         '(-sU, sU) on S) and with the tensor charge carried by the factor the caller selected (Q keeps it, R has none). The model of the connecting-leg charge '
+         'is run against the real factors. NOT proved: that LAPACK meets its per-block specification -- reconstruction U S V = a (suitably permuted), U/Q isometric, '
+         'V co-isometric, S non-negative and ordered per sector, R upper triangular with non-negative diagonal, eigh reconstruction/ordering for the four '
+         'orderings, eig bi-orthonormality: validated numerically on every run for random real/complex tensors, ranks 2-5, lazily transposed and fused inputs, '
+         'all axis positions.'),
+   design_ref='DESIGN.md section 6 C04',
+   note=('Trusted: Coq kernel, no axioms; LAPACK via scipy/numpy (premise, validated per call within 1e-9..1e-10 relative tolerance); merge/unmerge of legs is covered '
+         'by C03/C01 correspondence, not by a theorem here.'),
+   technique='Coq proof (charge bookkeeping of the connecting leg) + model correspondence + numerical validation of LAPACK premises'),
  'C17': dict(
    category='proof',
    text=('PARTIAL proof + exact round-trip correspondence. Proved in Coq: combine_data_and_meta inverts split_data_and_meta on EVERY dictionary tree (any nesting, '
